@@ -564,3 +564,84 @@ class Machine:
         else:
             from vf.ref import mmu
             mmu.report_abort(self, ab)
+
+
+# ---------------------------------------------------------------------------------------------- PSR writes (B1.3.3)
+def cpsr_write_by_instr(M, value, bytemask, is_excpt_return):
+    privileged = M.privileged()
+    nmfi = (M.s['sctlr'] >> 27) & 1
+    c = M.s['cpsr']
+    scr = M.s.get('scr', 0) if M.sec_ext() else 0
+
+    def cp(hi, lo):
+        nonlocal c
+        m = ((1 << (hi - lo + 1)) - 1) << lo
+        c = (c & ~m) | (value & m)
+    if bytemask & 8:
+        cp(31, 27)
+        if is_excpt_return:
+            cp(26, 24)
+    if bytemask & 4:
+        cp(19, 16)
+    if bytemask & 2:
+        if is_excpt_return:
+            cp(15, 10)
+        cp(9, 9)
+        if privileged and (M.is_secure() or (scr >> 5) & 1 or M.virt_ext()):
+            cp(8, 8)
+    if bytemask & 1:
+        if privileged:
+            cp(7, 7)
+        if privileged and (not nmfi or not (value >> 6) & 1) and (M.is_secure() or (scr >> 4) & 1 or M.virt_ext()):
+            cp(6, 6)
+        if is_excpt_return:
+            cp(5, 5)
+        if privileged:
+            vm = value & 31
+            if M.bad_mode(vm):
+                raise Unpred('CPSRWriteByInstr: bad mode')
+            if not M.is_secure() and vm == MODES['mon']:
+                raise Unpred('Monitor mode from Non-secure state')
+            if not M.is_secure() and vm == MODES['fiq'] and (M.s.get('nsacr', 0) >> 19) & 1:
+                raise Unpred('FIQ mode from Non-secure state with NSACR.RFR')
+            if not (scr & 1) and vm == MODES['hyp']:
+                raise Unpred('Hyp mode in Secure state')
+            if not M.is_secure() and M.mode != MODES['hyp'] and vm == MODES['hyp']:
+                raise Unpred('into Hyp mode from a Non-secure PL1 mode')
+            if M.mode == MODES['hyp'] and vm != MODES['hyp'] and not is_excpt_return:
+                raise Unpred('out of Hyp mode without exception return')
+            cp(4, 0)
+    M.s['cpsr'] = c
+    M.thumb = bool((c >> 5) & 1)
+
+
+def spsr_write_by_instr(M, value, bytemask):
+    if M.user_or_system():
+        raise Unpred('SPSR write in User/System mode')
+    s = M.spsr()
+
+    def cp(hi, lo):
+        nonlocal s
+        m = ((1 << (hi - lo + 1)) - 1) << lo
+        s = (s & ~m) | (value & m)
+    if bytemask & 8:
+        cp(31, 24)
+    if bytemask & 4:
+        cp(19, 16)
+    if bytemask & 2:
+        cp(15, 8)
+    if bytemask & 1:
+        cp(7, 5)
+        if M.bad_mode(value & 31):
+            raise Unpred('SPSRWriteByInstr: bad mode')
+        cp(4, 0)
+    M.set_spsr(s)
+
+
+def exception_return_branch(M, new_pc):
+    c = M.s['cpsr']
+    if (c & 31) == MODES['hyp'] and (c >> 24) & 1 and (c >> 5) & 1:
+        raise Unpred('return to Hyp mode in ThumbEE state')
+    if (c >> 24) & 1:
+        raise Unpred('exception return to Jazelle/ThumbEE state (not modelled)')
+    M.branch_write_pc(new_pc)
